@@ -424,7 +424,11 @@ class HealSparseMap(object):
         oldsize = len(self._sparse_map)
         newsize = oldsize + new_cov_pix.size*self._cov_map.nfine_per_cov
 
-        if not self._is_bit_packed and not self._sparse_map.flags.owndata:
+        if self._is_bit_packed:
+            owndata = self._sparse_map._data.flags.owndata
+        else:
+            owndata = self._sparse_map.flags.owndata
+        if not owndata:
             # An array that does not own its memory (a map read from a file, the
             # result of a reshape) cannot be resized in place.
             self._sparse_map = self._sparse_map.copy()
